@@ -58,6 +58,18 @@ func (checker *TimestampChecker) IsUpToDate(t *ast.Task) (bool, error) {
 		}
 	}
 
+	// A generates entry that matches no file (any more) means that the task
+	// has to run, however old the sources are
+	for _, g := range t.Generates {
+		if g.Negate {
+			continue
+		}
+		files, err := glob(t.Dir, g.Glob)
+		if err != nil || len(files) == 0 {
+			return false, nil
+		}
+	}
+
 	taskTime := time.Now()
 
 	// Compare the time of the generates and sources. If the generates are old, the task will be executed.
